@@ -1,11 +1,122 @@
-(** C01 (stage A): the loader arms translated from dr/loader.rs on this run
-    resolve and translate completely; theorems over the interpreter are being
-    added in Proofs/LoaderFacts.v. *)
-From RV Require Import Model.Base Model.Spirv Model.Grammar Model.Reflect Model.Loader.
-From RV Require Import Gen.SpirvData Gen.LoaderData Inst.Linked.
+(** C01 - load-then-assemble reproduces every instruction of the input binary.
+    Statements only; proofs are [exact] of lemmas of Proofs/EndToEndFacts.v
+    (which composes CodecFacts, LoadBytesFacts, LayoutFacts, LoaderFacts).
+    [load_case] = dr::load_bytes (parser + loader arms translated from the
+    source on this run), [assemble_module] = Module::assemble (translated
+    traversal order), for EVERY byte string that loads. *)
+From RV Require Import Model.Base Model.Bytes Model.Spirv Model.Grammar Model.Reflect Model.Module Model.Inst Model.Decoder Model.Parser Model.Loader.
+From RV Require Import Spec.Layout Spec.Conforms Proofs.CodecFacts Proofs.LoaderFacts Proofs.LayoutFacts Proofs.LoadBytesFacts Proofs.EndToEndFacts.
+From RV Require Import Gen.SpirvData Gen.LoaderData Inst.Linked Inst.Run Inst.C05_inst.
+From Coq Require Import Sorting.Permutation.
 
 Theorem C01_loader_arms_link :
   link_larms op_enum loader_arms_raw = Some loader_arms /\ loader_translation_failures = [].
 Proof. exact (conj loader_arms_link loader_translated_completely). Qed.
 
+(** the header of the loaded module carries the input's version (major/minor
+    bytes) and id bound; generator and reserved word are rspirv's own *)
+Theorem C01_header :
+  forall bytes h is,
+  Forall byte bytes -> snd (load_case bytes) = Ok tt -> scan_bytes G bytes = (Some h, is, Ok tt) ->
+  loaded_header bytes = Some h /\
+  exists w1 w2 w3 w4 body,
+    bytes = bytes_of_words [MAGIC; w1; w2; w3; w4] ++ body /\
+    w1 < w32 /\ w2 < w32 /\ w3 < w32 /\ w4 < w32 /\
+    h = {| h_magic := MAGIC; h_version := norm_version w1; h_generator := GENERATOR;
+           h_bound := w3; h_reserved := 0 |} /\
+    norm_header h = h.
+Proof. exact e2e_header. Qed.
+
+(** assembling = that header followed by the encodings of the module's instructions in traversal order *)
+Theorem C01_assemble_is_header_then_instructions :
+  forall h (m : module inst),
+  assemble_module (Some h) m = asm_header h ++ flat_map asm_inst (all_insts m) /\
+  bytes_of_words (assemble_module (Some h) m) = bytes_of_words (asm_header h) ++ enc_stream (all_insts m).
+Proof. exact e2e_assemble. Qed.
+
+(** none dropped, duplicated or invented (at most one OpMemoryModel: the documented exclusion) *)
+Theorem C01_nothing_dropped_or_invented :
+  forall bytes h is,
+  snd (load_case bytes) = Ok tt -> scan_bytes G bytes = (Some h, is, Ok tt) ->
+  let m := loaded_module bytes in
+  (at_most_one_mm (toks is) -> Permutation (all_insts m) is) /\
+  (forall x, In x (all_insts m) -> In x is).
+Proof. exact e2e_nothing_lost. Qed.
+
+(** grouped in layout order with the relative order preserved inside every section, function and block *)
+Theorem C01_relative_order_preserved :
+  forall bytes h is,
+  snd (load_case bytes) = Ok tt -> scan_bytes G bytes = (Some h, is, Ok tt) ->
+  let m := loaded_module bytes in
+  (forall k, k <= 10 -> subseq (sec_insts m k) is)
+  /\ (forall f, In f (m_functions inst m) -> subseq (olist (f_def inst f) ++ f_params inst f) is)
+  /\ (forall f b, In f (m_functions inst m) -> In b (f_blocks inst f) -> subseq (block_insts b) is)
+  /\ fn_defs (m_functions inst m) = insts_with TFunction is
+  /\ fn_labels (m_functions inst m) = insts_with TLabel is
+  /\ fn_ends (m_functions inst m) = insts_with TFunctionEnd is
+  /\ (forall f, In f (m_functions inst m) -> subseq (fn_skeleton f) is)
+  /\ (forall f, In f (m_functions inst m) -> subseq (olist (f_def inst f) ++ f_params inst f ++ olist (f_end inst f)) is).
+Proof. exact e2e_order. Qed.
+
+(** each instruction is re-encoded to as many words as it occupied in the
+    input and its re-encoding parses back to itself (word-identical up to the
+    bytes after a string's NUL) *)
+Theorem C01_each_instruction_reencoded :
+  forall bytes h is,
+  Forall byte bytes -> scan_bytes G bytes = (Some h, is, Ok tt) ->
+  conforms_stream G [] is /\
+  exists hdr cs tl,
+    bytes = hdr ++ concat cs ++ tl /\ length hdr = 20%nat /\ (length tl < 4)%nat /\
+    Forall2 same_length cs is /\ reencodes G [] is cs /\
+    (20 + length (enc_stream is) + length tl = length bytes)%nat.
+Proof. exact e2e_chunks. Qed.
+
+(** an input already in layout order comes back instruction for instruction from the first one on *)
+Theorem C01_layout_ordered_input_is_reproduced :
+  forall bytes h is,
+  Forall byte bytes -> snd (load_case bytes) = Ok tt -> scan_bytes G bytes = (Some h, is, Ok tt) ->
+  layout_ordered (toks is) ->
+  let m := loaded_module bytes in
+  all_insts m = is /\
+  assemble_module (Some h) m = asm_header h ++ flat_map asm_inst is /\
+  conforms_stream G [] is /\
+  exists hdr cs tl,
+    bytes = hdr ++ concat cs ++ tl /\ length hdr = 20%nat /\ (length tl < 4)%nat /\
+    bytes_of_words (assemble_module (Some h) m)
+      = bytes_of_words (asm_header h) ++ concat (map (fun i => bytes_of_words (asm_inst i)) is) /\
+    Forall2 same_length cs is /\ reencodes G [] is cs /\
+    (length (bytes_of_words (assemble_module (Some h) m)) + length tl = length bytes)%nat.
+Proof. exact e2e_layout_ordered. Qed.
+
+(** loading the output again gives an equal module - whenever the literal
+    widths are the same in layout order (always for layout-ordered input) *)
+Theorem C01_reload_gives_equal_module :
+  forall bytes h is,
+  Forall byte bytes -> snd (load_case bytes) = Ok tt -> scan_bytes G bytes = (Some h, is, Ok tt) ->
+  let m := loaded_module bytes in
+  conforms_stream G [] (all_insts m) ->
+  let bytes' := bytes_of_words (assemble_module (Some h) m) in
+  scan_bytes G bytes' = (Some h, all_insts m, Ok tt) /\
+  load_case bytes' = load_case bytes /\
+  snd (load_case bytes') = Ok tt /\ loaded_module bytes' = m /\ loaded_header bytes' = Some h.
+Proof. exact e2e_reload. Qed.
+
+(** KNOWN FINDING F14: without that stability the reload can fail - the witness
+    (a 64-bit type declared after the value it types) loads, its re-assembly does not *)
+Theorem C01_F14_reload_refuted :
+  Forall byte refute_bytes /\
+  snd (load_case refute_bytes) = Ok tt /\
+  exists h, loaded_header refute_bytes = Some h /\
+    snd (load_case (bytes_of_words (assemble_module (Some h) (loaded_module refute_bytes))))
+    = Er (POperandError (LimitReached 132)).
+Proof. exact reload_refuted. Qed.
+
 Print Assumptions C01_loader_arms_link.
+Print Assumptions C01_header.
+Print Assumptions C01_assemble_is_header_then_instructions.
+Print Assumptions C01_nothing_dropped_or_invented.
+Print Assumptions C01_relative_order_preserved.
+Print Assumptions C01_each_instruction_reencoded.
+Print Assumptions C01_layout_ordered_input_is_reproduced.
+Print Assumptions C01_reload_gives_equal_module.
+Print Assumptions C01_F14_reload_refuted.
